@@ -135,6 +135,9 @@ type fgen struct {
 	stackLocals   []stackLocal    // non-escaping locals (callees cannot write them)
 	guardInfos    []*guardInfo
 	freshRefs     map[string]bool // refs allocated by this function
+	quantReqs     []quantAssumed
+	instDone      map[string]bool
+	instTerms     []string
 }
 
 func (g *fgen) emit(s string) { g.lines = append(g.lines, s) }
